@@ -27,8 +27,15 @@ func histDirect(ops []runCase) map[string]any {
 		debug.SetGCPercent(prevGC)
 	}()
 	res := []any{}
+	sets := []*loadedSet{}
 	for _, op := range ops {
-		res = append(res, runV1Direct(op))
+		var held *loadedSet
+		if op.Held > 0 && op.Held <= len(sets) {
+			held = sets[op.Held-1]
+		}
+		m, set := runV1With(op, held)
+		sets = append(sets, set)
+		res = append(res, m)
 	}
 	return map[string]any{"k": "hist", "ops": res}
 }
@@ -74,6 +81,13 @@ func genC15(e *emitter, tier string, seed int64) {
 		{"empty-literals", []scriptSrc{{"a.p", "m = {}\nl = []\np(\"fresh\", m, l, len(m))\nm[\"seen\"] = 1\nl2 = [1]\nl2[0] = 2\nadd_key(dump, m)\n"}}, 0},
 		{"void-into-tag", []scriptSrc{{"a.p", "add_key(t1, a.b)\nset_tag(f1, a.b)\np(get_key(t1), get_key(f1))\n"}}, 0},
 		{"read-all-keys", []scriptSrc{{"a.p", "p(message + message, f1, t1, get_key(k))\nadd_key(n9, len(message))\n"}}, 0},
+		// the same text loaded next to different companions, and the same grok text under different
+		// pattern definitions: what a loaded script does is fixed by the set it was loaded with
+		{"use-lib1", []scriptSrc{{"a.p", "use(\"b.p\")\np(\"lib\", get_key(from), get_key(more))\n"}, {"b.p", "add_key(from, \"one\")\n"}}, 0},
+		{"use-lib2", []scriptSrc{{"a.p", "use(\"b.p\")\np(\"lib\", get_key(from), get_key(more))\n"}, {"b.p", "add_key(from, \"two\")\nadd_key(more, 2)\n"}}, 0},
+		{"grok-code-digits", []scriptSrc{{"a.p", "add_pattern(\"code\", \"\\\\d+\")\ngrok(_, \"%{WORD:w} %{code:c}\")\np(get_key(w), get_key(c))\n"}}, 0},
+		{"grok-code-any", []scriptSrc{{"a.p", "add_pattern(\"code\", \".*\")\ngrok(_, \"%{WORD:w} %{code:c}\")\np(get_key(w), get_key(c))\n"}}, 0},
+		{"grok-code-undefined", []scriptSrc{{"a.p", "grok(_, \"%{WORD:w} %{code:c}\")\np(get_key(w), get_key(c))\n"}}, 0},
 		{"map-json", []scriptSrc{{"a.p", "j = load_json(\"{\\\"a\\\": [1, 2.5]}\")\nadd_key(j)\nadd_key(k2, j[\"a\"][1])\n"}}, 0},
 	}
 	points := []pointSpec{
@@ -92,12 +106,25 @@ func genC15(e *emitter, tier string, seed int64) {
 		}
 		return runCase{Scripts: s.scripts, Entry: "a.p", Point: pt, SigK: s.sigK, HasSig: true}
 	}
-	emitHist := func(idx [][2]int, gen string) {
+	// an operation is (script set, point, held): held > 0 runs again the set loaded by that earlier
+	// operation of the history (the host kept it) instead of loading
+	emitHist := func(idx [][3]int, gen string) {
 		ops := []runCase{}
 		key := ""
-		for _, ij := range idx {
-			ops = append(ops, mkOp(ij[0], ij[1]))
-			key += fmt.Sprintf("%s/%d ", pool[ij[0]].name, ij[1])
+		for k, ij := range idx {
+			set := ij[0]
+			if ij[2] > 0 {
+				set = idx[ij[2]-1][0]
+				idx[k][0] = set
+			}
+			op := mkOp(set, ij[1])
+			op.Held = ij[2]
+			ops = append(ops, op)
+			key += fmt.Sprintf("%s/%d", pool[set].name, ij[1])
+			if ij[2] > 0 {
+				key += fmt.Sprintf("@%d", ij[2])
+			}
+			key += " "
 		}
 		out := histV1(ops)
 		out["gen"] = gen
@@ -110,7 +137,9 @@ func genC15(e *emitter, tier string, seed int64) {
 	// all histories of length 2 (every ordered pair of operations), then longer ones
 	for a := 0; a < n; a++ {
 		for b := 0; b < n; b++ {
-			emitHist([][2]int{{a, 0}, {b, 1}, {a, 1}, {b, 0}}, "pairs")
+			emitHist([][3]int{{a, 0, 0}, {b, 1, 0}, {a, 1, 0}, {b, 0, 0}}, "pairs")
+			// load a, load b, then run both sets as loaded
+			emitHist([][3]int{{a, 0, 0}, {b, 1, 0}, {a, 1, 1}, {b, 0, 2}, {a, 0, 1}}, "pairs-held")
 		}
 	}
 	N, maxLen := 150, 40
@@ -119,9 +148,12 @@ func genC15(e *emitter, tier string, seed int64) {
 	}
 	for i := 0; i < N; i++ {
 		l := 3 + rng.Intn(maxLen)
-		idx := make([][2]int, l)
+		idx := make([][3]int, l)
 		for k := range idx {
-			idx[k] = [2]int{rng.Intn(n), rng.Intn(2)}
+			idx[k] = [3]int{rng.Intn(n), rng.Intn(2), 0}
+			if k > 0 && rng.Intn(3) == 0 {
+				idx[k][2] = 1 + rng.Intn(k)
+			}
 		}
 		emitHist(idx, "random")
 	}
